@@ -1062,6 +1062,202 @@ fn main() {
         }
     }
 
+    // repeated records on ONE reused encoder (state kept in the encoder between commands): the same non-empty
+    // record X again after nothing / a Face / a Reset / another record / characters. Judged by STATE, so an
+    // encoder that soundly skips a change that changes nothing is not reported: the written commands and what is
+    // read back - by the command decoder, and by the cell writer - are run on the harness's own face state
+    // (RFace + underline colour) from two start states that differ in every field, and must give the same face at
+    // every character and at the end.
+    for i in 0..(2_000 * scale) {
+        let case = format!("rtr#{i}");
+        let o: &mut Out = if target.as_ref().map_or(true, |t| *t == case) { &mut out } else { &mut sink };
+        #[derive(Clone, Copy)]
+        enum W {
+            Modify(RMod),
+            Face(RFace),
+            Reset,
+            Char(char),
+        }
+        let x = loop {
+            let m = rnd_rmod(&mut rng);
+            if m != RMod::default() {
+                break m;
+            }
+        };
+        let y = rnd_rmod(&mut rng);
+        let f = rnd_rface(&mut rng);
+        let chars = |rng: &mut Rng, v: &mut Vec<W>, at_least: u64| {
+            for _ in 0..(at_least + rng.below(2)) {
+                v.push(W::Char(rnd_char(rng)));
+            }
+        };
+        let mut cmds: Vec<W> = Vec::new();
+        let pattern = i % 6;
+        cmds.push(W::Modify(x));
+        chars(&mut rng, &mut cmds, 0);
+        match pattern {
+            0 => {}
+            1 => cmds.push(W::Face(f)),
+            2 => cmds.push(W::Reset),
+            3 => cmds.push(W::Modify(y)),
+            4 => chars(&mut rng, &mut cmds, 1),
+            _ => {
+                cmds.push(W::Face(f));
+                chars(&mut rng, &mut cmds, 1);
+                cmds.push(W::Modify(x));
+                cmds.push(W::Modify(y));
+            }
+        }
+        chars(&mut rng, &mut cmds, 0);
+        cmds.push(W::Modify(x));
+        chars(&mut rng, &mut cmds, 0);
+        // two start states that differ in every field
+        let s1 = rnd_rface(&mut rng);
+        let other = |c: Rgb| match c {
+            None => Some([1, 2, 3, 255]),
+            Some(_) => None,
+        };
+        let s2 = RFace {
+            fg: other(s1.fg),
+            bg: other(s1.bg),
+            under: (s1.under + 1) % 6,
+            bold: !s1.bold,
+            italic: !s1.italic,
+            blink: !s1.blink,
+            reverse: !s1.reverse,
+            strike: !s1.strike,
+            junk: 0,
+        };
+        let starts: [(RFace, Rgb); 2] = [(s1, None), (s2, Some([9, 9, 9, 255]))];
+        let step = |st: (RFace, Rgb), m: &RMod| -> (RFace, Rgb) {
+            (apply_r(m, st.0), if m.reset { m.underline_color } else { m.underline_color.or(st.1) })
+        };
+        // encode on one encoder; a Reset goes to a sink of its own (the command decoder has no reading of ESC c):
+        // for the stream read back it did not happen, for the encoder it did
+        let mut bytes = Vec::new();
+        let mut enc = TTYEncoder::new(true_caps.clone());
+        let mut script = Vec::new();
+        let mut usable = true;
+        for c in &cmds {
+            let r = match c {
+                W::Modify(m) => {
+                    script.push(format!("MODIFY {}", rmod_tok(m)));
+                    enc.encode(&mut bytes, TerminalCommand::FaceModify(crate_mod(m)))
+                }
+                W::Face(rf) => {
+                    script.push(format!("FACE {}", rface_tok(rf)));
+                    match build(o, &case, rf) {
+                        Some(cf) => enc.encode(&mut bytes, TerminalCommand::Face(cf)),
+                        None => {
+                            usable = false;
+                            Ok(())
+                        }
+                    }
+                }
+                W::Reset => {
+                    script.push("RESET (bytes discarded)".into());
+                    enc.encode(&mut Vec::new(), TerminalCommand::Reset)
+                }
+                W::Char(ch) => {
+                    script.push(format!("CHAR U+{:04X}", *ch as u32));
+                    enc.encode(&mut bytes, TerminalCommand::Char(*ch))
+                }
+            };
+            if r.is_err() {
+                o.fail("C06: encode failed", json!({"case": case, "script": script}), json!("bytes"), json!("error"));
+                usable = false;
+            }
+        }
+        let cuts = rnd_cuts(&mut rng, bytes.len());
+        o.hist(&format!("roundtrip:repeated:{pattern}"));
+        o.case(&format!("rtr {}", script.join("|")), true);
+        if !usable {
+            continue;
+        }
+        // expected: faces at the characters and at the end, per start state
+        let expect = |start: (RFace, Rgb)| -> (Vec<(char, RFace, Rgb)>, (RFace, Rgb)) {
+            let mut st = start;
+            let mut at = Vec::new();
+            for c in &cmds {
+                match c {
+                    W::Modify(m) => st = step(st, m),
+                    W::Face(rf) => st = step(st, &face_change(rf)),
+                    W::Reset => {}
+                    W::Char(ch) => at.push((*ch, st.0, st.1)),
+                }
+            }
+            (at, st)
+        };
+        let via_queue = i % 3 == 2;
+        let got = decode_all(&bytes, &cuts, via_queue);
+        for start in starts {
+            let want = expect(start);
+            let read: Option<(Vec<(char, RFace, Rgb)>, (RFace, Rgb))> = got.as_ref().ok().and_then(|cs| {
+                let mut st = start;
+                let mut at = Vec::new();
+                for c in cs {
+                    match c {
+                        TerminalCommand::FaceModify(m) => st = step(st, &raw_mod(m)),
+                        TerminalCommand::Char(ch) => at.push((*ch, st.0, st.1)),
+                        _ => return None,
+                    }
+                }
+                Some((at, st))
+            });
+            if read.as_ref() != Some(&want) {
+                let show = |v: &(Vec<(char, RFace, Rgb)>, (RFace, Rgb))| {
+                    let mut l: Vec<String> = v.0.iter().map(|(c, f, u)| format!("U+{:04X}:{} ul={}", *c as u32, rface_tok(f), rgb_tok(*u))).collect();
+                    l.push(format!("end:{} ul={}", rface_tok(&v.1.0), rgb_tok(v.1.1)));
+                    l
+                };
+                o.fail(
+                    "C06: face changes repeated on one encoder do not read back through the command decoder",
+                    json!({"case": case, "script": script, "bytes": hex(&bytes), "cuts": cuts, "start_face": rface_tok(&start.0), "reader": if via_queue { "IOQueue" } else { "cursor" }, "has_inexpressible_param": false}),
+                    json!(show(&want)),
+                    json!(read.as_ref().map(show).unwrap_or(vec!["panic, or a command that is neither a character nor a face modification".into()])),
+                );
+                break;
+            }
+            // the same bytes through the cell writer (a face holds no underline colour)
+            let Some(start_face) = build(o, &case, &start.0) else { break };
+            let wrote = guarded(|| {
+                let mut rec = Recorder { face: start_face, wraps: false, cells: Vec::new(), refuse: (0, 0), calls: 0 };
+                {
+                    let mut w = rec.by_ref().tty_writer();
+                    let mut from = 0;
+                    let mut points: Vec<usize> = cuts.clone();
+                    points.push(bytes.len());
+                    for end in points {
+                        if end < from || end > bytes.len() {
+                            continue;
+                        }
+                        let _ = w.write_all(&bytes[from..end]);
+                        from = end;
+                    }
+                }
+                (rec.cells, raw_face(&rec.face))
+            });
+            let want_cells: Vec<(char, RFace)> = want.0.iter().map(|(c, f, _)| (*c, *f)).collect();
+            if wrote.as_ref() != Ok(&(want_cells.clone(), want.1.0)) {
+                let show = |cells: &Vec<(char, RFace)>, end: &RFace| {
+                    let mut l: Vec<String> = cells.iter().map(|(c, f)| format!("U+{:04X}:{}", *c as u32, rface_tok(f))).collect();
+                    l.push(format!("end:{}", rface_tok(end)));
+                    l
+                };
+                o.fail(
+                    "C06: face changes repeated on one encoder do not reach the cells written through tty_writer",
+                    json!({"case": case, "script": script, "bytes": hex(&bytes), "cuts": cuts, "start_face": rface_tok(&start.0), "has_inexpressible_param": false}),
+                    json!(show(&want_cells, &want.1.0)),
+                    json!(wrote.as_ref().map(|w| show(&w.0, &w.1)).unwrap_or(vec!["panic".into()])),
+                );
+                break;
+            }
+        }
+        if i % 700 == 0 {
+            o.sample(json!({"repeated": script, "cuts": cuts}));
+        }
+    }
+
     // (f)+(g) text and the cell writer under chunking; the writer starts from a RANDOM face
     for i in 0..(3_000 * scale) {
         let case = format!("wr#{i}");
@@ -1181,5 +1377,5 @@ fn main() {
             o.sample(json!({"start_face": stok, "script": script, "cuts": cuts}));
         }
     }
-    out.finish("number strings (1-30 digits, 10% with a non-digit, leading zeros); SGR parameter strings of 1-5 atoms from 46 atom kinds (every supported parameter, ; and : colour forms, palette boundaries, leading zeros, 30 unsupported legal parameters, the four inexpressible ones 7/27/39/49, 30 malformed atoms) joined by `;`, 20% garbage over the SGR alphabet; random faces; random FaceModify / Face values and mixed sequences of face commands and characters (all scalar values but ESC: controls, DEL, C1, boundary code points) round-tripped through the real encoder (true colour) and command decoder under random read cuts; scripts of SGR sequences and UTF-8 text written through tty_writer() from a random start face under random write cuts; distinct by content");
+    out.finish("number strings (1-30 digits, 10% with a non-digit, leading zeros); SGR parameter strings of 1-5 atoms from 46 atom kinds (every supported parameter, ; and : colour forms, palette boundaries, leading zeros, 30 unsupported legal parameters, the four inexpressible ones 7/27/39/49, 30 malformed atoms) joined by `;`, 20% garbage over the SGR alphabet; random faces; random FaceModify / Face values and mixed sequences of face commands and characters (all scalar values but ESC: controls, DEL, C1, boundary code points) round-tripped through the real encoder (true colour) and command decoder under random read cuts; the same non-empty record repeated on one reused encoder (after nothing, a Face, a Reset, another record, characters) read back through the command decoder and the cell writer and judged by face state from two start states; scripts of SGR sequences and UTF-8 text written through tty_writer() from a random start face under random write cuts; distinct by content");
 }
